@@ -191,6 +191,20 @@ class Expander:
             if self._overridden_below(modname, cls, f.attr):
                 return None
             recv = f.value
+        elif isinstance(f, ast.Attribute) and isinstance(f.value, ast.Name) and f.value.id in self.mod_classes.get(modname, {}) and f.value.id not in _locals_of(caller):
+            # `ClassName.helper(...)`: a static / class method of a class of the same module, called through the class
+            kcls = self.mod_classes[modname][f.value.id]
+            r = self._method(modname, kcls, f.attr)
+            if r is None:
+                return None
+            qual, h = r
+            decs = [ast.unparse(d) for d in h.decorator_list]
+            if "staticmethod" in decs:
+                recv = None
+            elif "classmethod" in decs and not self._overridden_below(modname, kcls, f.attr):
+                recv = f.value
+            else:
+                return None
         elif isinstance(f, ast.Name) and f.id in self.mod_funcs.get(modname, {}):
             h = self.mod_funcs[modname][f.id]
             qual = f"{modname}:{f.id}"
@@ -362,6 +376,7 @@ class Expander:
                     for s in node.body:
                         if isinstance(s, ast.FunctionDef):
                             self._do_function(modname, node, s)
+            collapse_copies(m.tree)
             attribute_aliases(m.tree)
             sink_selected_receivers(m.tree)
             unroll_literal_loops(m.tree)
@@ -420,6 +435,34 @@ def _attr_writers(cls: ast.ClassDef) -> Dict[str, Optional[Set[str]]]:
     for name in methods:
         out[name] = closure(name, frozenset())
     return out
+
+
+def collapse_copies(tree: ast.AST):
+    """`t = E` directly followed by `d = t`, with `t` stored once and loaded once in the function (a temporary that only
+    carries a value to its name - what expanding a helper's `return` leaves behind): rewritten to `d = E`."""
+    for fn in [n for n in ast.walk(tree) if isinstance(n, ast.FunctionDef)]:
+        loads: Dict[str, int] = {}
+        stores: Dict[str, int] = {}
+        for x in ast.walk(fn):
+            if isinstance(x, ast.Name):
+                d_ = loads if isinstance(x.ctx, ast.Load) else stores
+                d_[x.id] = d_.get(x.id, 0) + 1
+            elif isinstance(x, ast.arg):
+                stores[x.arg] = stores.get(x.arg, 0) + 1
+        for owner in ast.walk(fn):
+            for field in ("body", "orelse", "finalbody"):
+                blk = getattr(owner, field, None)
+                if not (isinstance(blk, list) and blk and isinstance(blk[0], ast.stmt)):
+                    continue
+                i = 0
+                while i + 1 < len(blk):
+                    a, b = blk[i], blk[i + 1]
+                    if (isinstance(a, ast.Assign) and len(a.targets) == 1 and isinstance(a.targets[0], ast.Name) and isinstance(b, ast.Assign) and len(b.targets) == 1 and isinstance(b.value, ast.Name)
+                            and b.value.id == a.targets[0].id and stores.get(b.value.id) == 1 and loads.get(b.value.id) == 1 and isinstance(b.targets[0], ast.Name)):
+                        blk[i:i + 2] = [ast.copy_location(ast.Assign(targets=b.targets, value=a.value), a)]
+                        ast.fix_missing_locations(blk[i])
+                        continue
+                    i += 1
 
 
 def attribute_aliases(tree: ast.AST):
@@ -830,6 +873,21 @@ def loops_to_comprehensions(tree: ast.AST):
                     is_list = (isinstance(v, ast.List) and not v.elts) or (isinstance(v, ast.Call) and isinstance(v.func, ast.Name) and v.func.id == "list" and not v.args and not v.keywords)
                     if not (is_dict or is_list):
                         continue
+                    # temporaries of the iteration (`t = E` then one use) are substituted before the body is classified
+                    lb = list(loop.body)
+                    while len(lb) > 1 and isinstance(lb[0], ast.Assign) and len(lb[0].targets) == 1 and isinstance(lb[0].targets[0], ast.Name) and lb[0].targets[0].id != d:
+                        t_ = lb[0].targets[0].id
+                        n_loads = sum(1 for st_ in lb[1:] for x in ast.walk(st_) if isinstance(x, ast.Name) and x.id == t_ and isinstance(x.ctx, ast.Load))
+                        n_st = sum(1 for st_ in lb[1:] for x in ast.walk(st_) if isinstance(x, ast.Name) and x.id == t_ and not isinstance(x.ctx, ast.Load))
+                        if n_loads != 1 or n_st or _free_loads(blk[i + 1:], {t_}) or not isinstance(lb[1], ast.Expr):
+                            break
+                        try:
+                            lb = [_Renamer({t_: lb[0].value}).visit(_clone(st_)) for st_ in lb[1:]]
+                        except _Unsupported:
+                            break
+                    if len(lb) != len(loop.body) and is_list and all(isinstance(b, ast.Expr) for b in lb):
+                        loop.body = lb
+                        ast.fix_missing_locations(loop)
                     exts = loop.body if is_list and 1 <= len(loop.body) <= 3 and all(
                         isinstance(b, ast.Expr) and isinstance(b.value, ast.Call) and isinstance(b.value.func, ast.Attribute) and b.value.func.attr == "extend" and isinstance(b.value.func.value, ast.Name)
                         and b.value.func.value.id == d and len(b.value.args) == 1 and not b.value.keywords and not any(isinstance(x, ast.Name) and x.id == d for x in ast.walk(b.value.args[0])) for b in loop.body) else None
